@@ -31,6 +31,7 @@ RULES_DOC["R7"] = ("= C16.R1: the key-table slot is published NULL -> LOCKED -> 
                    "table cannot be allocated (a failed set leaves no lock sentinel behind)")
 RULES_DOC["R8"] = "a routine that receives an array of pool handles frees, on its own paths, only the pools it created itself: every ABTI_pool_free call in it is governed by the test that the caller's slot was ABT_POOL_NULL"
 RULES_DOC["X4"] = common.X4_DOC
+RULES_DOC["R12"] = "= C17.R3: the roll-back of a failed stream creation returns the rank completely (unlink and un-count): num_xstreams is what ABT_xstream_get_num reports and what ABT_thread_migrate sizes its array with"
 RULES_DOC["R11"] = "= C15.R9: when a page allocation fails half-way through carving a bucket, the blocks obtained so far are returned labelled with their real number (the failed create is clean only if the global pool stays consistent)"
 RULES_DOC["R10"] = "= C14.R1: when associating a unit with a pool fails, the unit that was just created is given back to the pool that created it (and nothing else changes): the error path of ABTI_unit_set_associated_pool / ABTI_thread_set_associated_pool undoes exactly what it did"
 RULES_DOC["R9"] = "= C06.R9: an error path that detaches the caller's pools from a scheduler before freeing it releases the reference it took on each of them"
@@ -548,3 +549,5 @@ def run(P, rep, tier):
     common.borrow(rep, P, C14.rule_R1, "R10")
     from . import C15
     common.borrow(rep, P, C15.rule_R9, "R11")
+    from . import C17
+    common.borrow(rep, P, C17.rule_R1_R2_R3, "R12", only=("R3",))
